@@ -3,4 +3,5 @@
 set -e
 cd "$(dirname "$0")"
 export CARGO_NET_OFFLINE=true
-(cd engine && cargo build --release --offline 2>&1 | tail -3)
+(cd engine && cargo build --release --offline -p mc 2>&1 | tail -2)
+(cd engine && cargo build --release --offline -p c06 --bin c06q 2>&1 | tail -2)
